@@ -170,6 +170,10 @@ def recoverMask (N : Nat) (α0 d η : Nat → F) (dL dR : Nat → Nat → F) (y 
   ((d1 k - η k - e * d k) * (powF e 2)⁻¹ - α0 k - roundNonceSum dL dR es 0 k) * (powF z 2 * (powF y N * y))⁻¹
 end
 
+/-- bytes of generator output reduced to one scalar by `Scalar::random` (curve25519-dalek: a 64-byte wide reduction,
+    so that a draw is statistically uniform on the field) -/
+def scalarDrawBytes : Nat := 64
+
 /-- `Scalar::random_not_zero` (src/protocols/scalar_protocol.rs:23-31) on the stream of draws: redraw while zero -/
 def firstNonZero {F : Type} [Zero F] [DecidableEq F] : List F → Option F
   | [] => none
